@@ -110,3 +110,33 @@ def rankBool : Bool → Bool → Rank
   | _, _ => .eq
 
 end CM
+
+namespace CM
+
+/-- Go `==` on the comparable leaf values that can be keys of a Go map -/
+def Val.keyEq : Val → Val → Bool
+  | .undef, .undef => true
+  | .bool x, .bool y => x == y
+  | .byte x, .byte y => x == y
+  | .uns x, .uns y => x == y
+  | .int x, .int y => x == y
+  | .rune x, .rune y => x == y
+  | .flt x, .flt y => eqFl x y
+  | .cpx x, .cpx y => eqCx x y
+  | .str x, .str y => x == y
+  | _, _ => false
+
+/-- `catalog.SetValue` on the ordered pairs: replace in place or append -/
+def Val.catalogSet (acc : List (Val × Val)) (k v : Val) : List (Val × Val) :=
+  if acc.any (fun p => Val.keyEq p.1 k) then acc.map (fun p => if Val.keyEq p.1 k then (p.1, v) else p)
+  else acc ++ [(k, v)]
+
+/-- a Catalog built from pairs in order (repeated key: first position, last value) -/
+def Val.catalogOf (ps : List (Val × Val)) : List Val :=
+  (ps.foldl (fun acc p => Val.catalogSet acc p.1 p.2) []).map (fun p => .assoc p.1 p.2)
+
+/-- a Go map built from pairs in order (last value wins) -/
+def Val.mapOf (ps : List (Val × Val)) : List (Val × Val) :=
+  ps.foldl (fun acc p => Val.catalogSet acc p.1 p.2) []
+
+end CM
